@@ -225,7 +225,15 @@ def kill_point(args):
         if not os.path.exists(ck):
             if k >= 1:
                 return dict(res, fail='checkpoint file missing after a kill although %d checkpoint(s) had been completed' % k)
-            return dict(res, state='none-yet')
+            # no checkpoint yet: the re-run starts from scratch; whatever the killed run left behind (a partial temporary
+            # file) must not be in its way
+            rc2, out2 = run_child(cfg, d)
+            done2, end2 = read_log(os.path.join(d, 'completed.log'))
+            if end2 is None:
+                return dict(res, fail='re-running the script after a kill during the first checkpoint write did not finish: %s' % out2[-300:])
+            if 'ok=True' not in end2:
+                return dict(res, fail='re-run after a kill during the first checkpoint write stopped without success: %s' % end2[:160])
+            return dict(res, state='none-yet', same_result_as_uninterrupted=(end2 == ref_end))
         sys.path.insert(0, os.path.dirname(CHILD))
         from ckpt_child import h5_digest
         try:
